@@ -103,8 +103,13 @@ impl Vm {
             if !self.equal(&lcar, &rcar)? {
                 return Ok(false);
             }
-            left = self.heap.get(&left.as_cdr()?);
-            right = self.heap.get(&right.as_cdr()?);
+            let (lcdr, rcdr) = (left.as_cdr()?, right.as_cdr()?);
+            left = self.heap.get(&lcdr);
+            right = self.heap.get(&rcdr);
+            if !left.is_pair() || !right.is_pair() {
+                // compare the final cdrs like any other pair of objects
+                return self.equal(&lcdr, &rcdr);
+            }
         }
     }
 
